@@ -8,7 +8,9 @@ VARIABLE n
 \* dimensions (all 9 patterns occur, with every layout); the random walk draws it freely
 DfltFor(c) == [t \in {1, 2} |-> IF t = 1 THEN (CASE Cardinality(c.unset) % 3 = 0 -> "none" [] Cardinality(c.unset) % 3 = 1 -> "untouched" [] OTHER -> "set")
                                  ELSE (CASE c.sel = "same" -> "none" [] c.sel = "none" -> "set" [] c.sel = "shift" -> "untouched" [] OTHER -> "none")]
-GInit == CInit /\ n = 0 /\ case.dflt = DfltFor(case)
+ArrFor(c) == CASE (Cardinality(c.s["tsp"]) + Cardinality(c.unset)) % 3 = 0 -> "strided"
+                [] (Cardinality(c.s["tsp"]) + Cardinality(c.unset)) % 3 = 1 -> "contiguous" [] OTHER -> "cast"
+GInit == CInit /\ n = 0 /\ case.dflt = DfltFor(case) /\ case.arr = ArrFor(case)
 GNext == CNext /\ UNCHANGED n
 GSpec == GInit /\ [][GNext]_<<cvars, n>>
 SetSeq(S) == SetToSortSeq(S, LAMBDA a, b : a < b)
@@ -17,12 +19,12 @@ Out(c) == [s |-> [f \in SFields |-> SetSeq(c.s[f])],
            filespecies |-> FileSpecies(c), filespecies2 |-> FileSpeciesOf(c, 2),
            unset |-> SetToSortSeq(c.unset, LAMBDA a, b : a = "t_f" \/ (a = "t_i" /\ b = "t_s")),
            dflt |-> c.dflt, scal |-> [f \in Opt \cup OptD |-> [t \in Trajs |-> HeldBy(c, f, t)[2]]],
-           sel |-> c.sel, layout |-> c.layout]
+           sel |-> c.sel, layout |-> c.layout, arr |-> c.arr]
 EmitRead == phase = "read" => PrintT("@@" \o ToJson(Out(case)))
 
 \* random walk: every step draws a fresh case
 RandCase(k) == [s |-> [f \in SFields |-> RandomElement(SUBSET U)], sel |-> RandomElement(Selectors \ {"shift"}),
-             unset |-> RandomElement(SUBSET Opt), layout |-> RandomElement(Layouts), dflt |-> RandomElement(AllDflt)]
+             unset |-> RandomElement(SUBSET Opt), layout |-> RandomElement(Layouts), dflt |-> RandomElement(AllDflt), arr |-> RandomElement(ArrForms)]
 SInit == case = RandCase(0) /\ phase = "read" /\ file = <<>> /\ back = <<>> /\ err = "none" /\ n = 0 /\ sfile = <<>> /\ sback = <<>>
 SNext == n < D /\ n' = n + 1 /\ case' = RandCase(n) /\ UNCHANGED <<phase, file, back, err, sfile, sback>>
 SSpec == SInit /\ [][SNext]_<<cvars, n>>
